@@ -45,6 +45,9 @@ COLS = {
     # intercept, yet the column is still evaluated) and an ordinary one
     "D": ["k", "k", "k", "k", "k"],
     "G": ["p", "q", "r", "p", "q"],
+    # integer position columns, used only inside subscript indices
+    "ix": [4, 3, 2, 1, 0],
+    "jx": [0, 0, 1, 1, 2],
     "lo": [0.0, 1.0, 1.0, 2.0, 0.5],
     "hi": [3.0, 3.0, 2.5, 3.0, 4.0],
 }
@@ -121,6 +124,11 @@ def formulas_a(rng, thorough):
         add(f"D:{a} + {a} + C(G):{b}", "zero-column-term", {"D", "G", a, b})
         add(f"C(D, levels=['k']) + {a}", "zero-column-term", {"D", a})
         add(f"{a} + D - 1", "categorical", {"D", a})
+        # a data column that is mentioned only inside a subscript index (also nested, and after a constant slice)
+        add(f"I(np.asarray({a})[ix]) + {b}", "subscript-index", {a, b, "ix"}, "np")
+        add(f"I(np.asarray({a})[np.asarray(ix)[jx]]) + {b}", "subscript-index", {a, b, "ix", "jx"}, "np")
+        add(f"{{np.asarray({a})[0:5][jx] * 2}}", "subscript-index", {a, "jx"}, "np")
+        add(f"{b} ~ np.take(np.asarray({a}), ix)[jx]", "subscript-index", {a, b, "ix", "jx"}, "np")
         # names in every argument position of a call: positional, keyword, nested inside a keyword
         add(f"np.clip({a}, a_min=lo, a_max=hi) + {b}", "keyword-argument", {a, b, "lo", "hi"}, "np")
         add(f"np.clip({a}, a_min=np.abs({b}), a_max=10)", "keyword-argument", {a, b}, "np")
@@ -534,7 +542,7 @@ def run_bounded(ctx):
         with ctx.bounded(
             "required-variables",
             rule="formula templates (plain, two-sided, nested calls, python expressions, attribute access, quoted names, data columns "
-                 "named like transforms, context constants, stateful transforms, keyword/positional/nested call arguments, dotted column names, back-ticked non-identifier names inside Python factors, single-level factors whose terms get zero columns) instantiated over ordered pairs of x,y,z (+ 40/400 seeded "
+                 "named like transforms, context constants, stateful transforms, keyword/positional/nested call arguments, dotted column names, back-ticked non-identifier names inside Python factors, single-level factors whose terms get zero columns, columns used only inside subscript indices) instantiated over ordered pairs of x,y,z (+ 40/400 seeded "
                  "random formulas) x 2 data column sets (exactly the read columns / plus unrelated columns) x "
                  "phase before/after; each case restricts the data to the reported set and then drops every reported column in turn; "
                  "non-trivial = the formula reads >= 2 columns",
